@@ -143,6 +143,9 @@ func init() {
 		return strings.Compare(a, b)
 	}
 	externals["strings.Compare"] = externals["internal/bytealg.CompareString"]
+	// strings.Clone / internal/stringslite.Clone copy through unsafe.String: strings are immutable values here
+	externals["strings.Clone"] = func(fr *frame, args []value) value { return args[0] }
+	externals["internal/stringslite.Clone"] = externals["strings.Clone"]
 	externals["internal/bytealg.Equal"] = func(fr *frame, args []value) value {
 		return fr.i.bytesEqual(args[0], args[1])
 	}
